@@ -1696,48 +1696,301 @@ def krylov_deficient(rows, p=(1 << 61) - 1):
     return rank_mod(right, n, p) < n
 
 
+def fibvec(n):
+    x, y, v = 0, 1, []
+    for _ in range(n):
+        x, y = y, (x + y) % 65537
+        v.append(y)
+    return v
+
+
+def krylov_tail_zero(rows, p=None):
+    """the scalar sequence (M^k v)[0], k = 1..2n-1, of _detp4 / ker_pbig vanishes (Berlekamp-Massey then indexes out
+    of range): empty first row, zero matrix, start vector in the kernel, ..."""
+    v = fibvec(len(rows))
+    for _ in range(2 * len(rows) - 1):
+        v = [sum(e * v[j] for j, e in r) for r in rows]
+        if p:
+            v = [x % p for x in v]
+        if v[0]:
+            return False
+    return True
+
+
+def _ask(binary, line, timeout=120):
+    import subprocess
+    try:
+        r = subprocess.run([binary], input=line + "\n", stdout=subprocess.PIPE, stderr=subprocess.DEVNULL, text=True, timeout=timeout)
+        return r.stdout.strip().split("\n")[0] if r.stdout.strip() else "abort"
+    except Exception:
+        return "hang"
+
+
+def ask_model(line):
+    from vlib.pipeline import driver_bin
+    return _ask(driver_bin(), line)
+
+
+def ask_impl(line, profile="release"):
+    from vlib.pipeline import harness_bin
+    return _ask(harness_bin(profile), line)
+
+
+def kernel_vector(F, n):
+    """integer vector w (not necessarily primitive) orthogonal to the n-1 independent rows of F; None if rank < n-1"""
+    A = [[Fraction(x) for x in r] for r in F]
+    piv = []
+    r = 0
+    for c in range(n):
+        p_ = next((i for i in range(r, len(A)) if A[i][c] != 0), None)
+        if p_ is None:
+            continue
+        A[r], A[p_] = A[p_], A[r]
+        inv = 1 / A[r][c]
+        A[r] = [x * inv for x in A[r]]
+        for i in range(len(A)):
+            if i != r and A[i][c] != 0:
+                f = A[i][c]
+                A[i] = [x - f * y for x, y in zip(A[i], A[r])]
+        piv.append(c)
+        r += 1
+        if r == len(A):
+            break
+    if r < n - 1:
+        return None
+    free = [c for c in range(n) if c not in piv][0]
+    w = [Fraction(0)] * n
+    w[free] = Fraction(1)
+    for i, c in enumerate(piv):
+        w[c] = -A[i][free]
+    den = 1
+    for x in w:
+        den = den * x.denominator // math.gcd(den, x.denominator)
+    return [int(x * den) for x in w]
+
+
+def simulate_lattice_index(rows, hmin, hmax):
+    """intdense::compute_lattice_index re-computed: IEEE doubles for the Gram-Schmidt filter (threshold
+    LATTICE_MINDIST^2 = 0.01), the estimates and the window, exact integers for the determinants.
+    Returns ('ok', h) | ('refuse',) = panic!("failed to determine lattice index") | ('assert', what)."""
+    prec = abs(hmax - hmin)
+    hmin = max(0.9 * hmin, hmin - 3.0 * prec)
+    hmax = min(1.1 * hmax, hmax + 3.0 * prec)
+    if not rows:
+        return ("ok", 1) if hmin <= 1.0 <= hmax else ("assert", "window")
+    if not (hmin <= hmax) or hmin == 0 or not (hmax / hmin < 1.5) or not (math.log2(hmax) < 126.0):
+        return ("assert", "window")
+    rows = sorted(rows, key=lambda r: sum(x * x for x in r))
+    dim = len(rows[0])
+    gcd = 0
+    for idx_start in range(max(4, len(rows)) - 3):
+        gram, norms, indices = [], [], []
+        cof = None          # (w, scale) with det(F; r) = scale * (w . r)
+
+        def gadd(gram, norms, row):
+            v = [float(x) for x in row]
+            for g, ng in zip(gram, norms):
+                if ng < 1e-9:
+                    continue
+                dot = 0.0
+                for a_, b_ in zip(g, v):
+                    dot += a_ * b_
+                mu = dot / ng
+                v = [x - mu * y for x, y in zip(v, g)]
+            nn = 0.0
+            for x in v:
+                nn += x * x
+            return (nn, v) if nn >= 0.01 else None
+        for idx in range(idx_start, len(rows)):
+            if len(gram) == dim - 1:
+                res = gadd(gram, norms, rows[idx])
+                if res is None:
+                    continue
+                nn = res[0]
+                logest = (sum(math.log2(x) for x in norms) + math.log2(nn)) / 2.0
+                F = [rows[i] for i in indices]
+                if cof is None:
+                    if dim == 1:
+                        cof = ([1], 1)
+                    else:
+                        w = kernel_vector(F, dim)
+                        if w is None:
+                            return ("assert", "rank")
+                        d0 = bareiss(F + [rows[idx]])
+                        dotw = sum(a_ * b_ for a_, b_ in zip(w, rows[idx]))
+                        if dotw == 0:
+                            return ("assert", "rank")
+                        cof = (w, Fraction(d0, dotw))
+                det = int(cof[1] * sum(a_ * b_ for a_, b_ in zip(cof[0], rows[idx])))
+                if logest <= 30.0:
+                    d = math.sqrt(math.prod(norms) * nn) if norms else math.sqrt(nn)
+                    if not abs(d - rust_round(d)) < 0.0001:
+                        return ("assert", "estimate")
+                    det = abs(det)
+                else:
+                    if det == 0 or abs(log2int(det) - logest) >= 1e-6:
+                        return ("assert", "estimate")
+                gcd = math.gcd(gcd, det)
+                gcd_f = float(gcd)
+                if gcd_f / hmin > 1e4:
+                    continue
+                m1 = rust_round(gcd_f / hmax)
+                m2 = rust_round(gcd_f / hmin)
+                cands = []
+                for m in range(m1, m2 + 1):
+                    if m <= 0:
+                        continue
+                    q, r_ = divmod(gcd, m)
+                    if r_ == 0 and 0.9 * hmin <= float(q) <= 1.1 * hmax:
+                        cands.append(q)
+                if len(cands) == 1:
+                    return ("ok", cands[0])
+            else:
+                res = gadd(gram, norms, rows[idx])
+                if res is not None:
+                    norms.append(res[0])
+                    gram.append(res[1])
+                    indices.append(idx)
+    return ("refuse",)
+
+
+_KEYCACHE = {}
+
+
+def sparse_trace_cause(dim, rows_s, hmin, hmax):
+    """documented cause of the sparse lattice-index refusal: with the SAME 100 row selections, exact determinants
+    determine the index, but detz reports 0 for selections whose true determinant is not 0"""
+    tr = ask_impl(f"im_sparse_lattice_trace {dim} {enc_sparse(rows_s)} 100")
+    if tr in BAD or "=" not in tr:
+        return None
+    prec = abs(hmax - hmin)
+    lo = max(0.9 * hmin, hmin - 3.0 * prec)
+    hi = min(1.1 * hmax, hmax + 3.0 * prec)
+    false_zero, gcd, decided = 0, 0, False
+    for part in tr.split("|"):
+        sel, d = part.split("=")
+        sel = unlst(sel)
+        M = to_dense([rows_s[i] for i in sel], dim)
+        true = bareiss(M)
+        if int(d) == 0 and true != 0:
+            false_zero += 1
+        elif int(d) != true:
+            return None                   # a wrong non-zero determinant is not this finding
+        if true == 0 or decided:
+            continue
+        gcd = math.gcd(gcd, abs(true))
+        gf = float(gcd)
+        if gf / lo > 1e4:
+            continue
+        cands = []
+        for m in range(rust_round(gf / hi), rust_round(gf / lo) + 1):
+            if m > 0 and gcd % m == 0 and 0.9 * lo <= float(gcd // m) <= 1.1 * hi:
+                cands.append(gcd // m)
+        if len(cands) == 1:
+            decided = True
+    if decided:
+        return "false-zero" if false_zero > 0 else None
+    # even with exact determinants of the same 100 selections the index is not determined: the random selections
+    # are (almost) all singular, or the gcd of their determinants stays a proper multiple of the index
+    return "selection"
+
+
 def finding_key(case, ans, profile):
-    """stable keys of the documented limitations (known_findings.json)"""
-    op = case.op
-    if op in ("im_det_sparse", "im_det_sparse_par", "im_detp4") and ans.replace(",", "").strip("0") == "":
-        if krylov_deficient(dec_sparse(case.args[0])):
+    """stable keys of the documented limitations (known_findings.json). A key is returned only when the documented
+    CAUSE of the finding is re-computed for this input (and, where a Lean model exists, the model shows the same
+    behaviour); any other failure of the same routine is a new failure."""
+    ck = (case.line, ans)
+    if ck not in _KEYCACHE:
+        try:
+            _KEYCACHE[ck] = _finding_key(case, ans)
+        except Exception:
+            _KEYCACHE[ck] = None
+    return _KEYCACHE[ck]
+
+
+def _dense_of_rels(rels):
+    gens = sorted({p for r in rels for p, _ in r})
+    pos = {p: len(gens) - 1 - i for i, p in enumerate(gens)}
+    rows = []
+    for r in rels:
+        if r:
+            v = [0] * len(gens)
+            for p, e in r:
+                v[pos[p]] = e
+            rows.append(v)
+    return rows
+
+
+def _finding_key(case, ans):
+    op, a = case.op, case.args
+    # ---- Wiedemann: false zero = the Krylov data (M, e_0, fixed start vector) has linear complexity < n
+    if op in ("im_det_sparse", "im_det_sparse_par") and ans == "0":
+        rows = dec_sparse(a[0])
+        if bareiss(to_dense(rows, len(rows))) != 0 and krylov_deficient(rows):
             return "sparse-det-false-zero"
+        return None
+    if op == "im_detp4" and ans not in BAD:
+        rows, ps = dec_sparse(a[0]), unlst(a[1])
+        M = to_dense(rows, len(rows))
+        got = unlst(ans)
+        if len(got) != 4:
+            return None
+        for g, p in zip(got, ps):
+            want = det_mod(M, p)
+            if g == want:
+                continue
+            if g != 0 or not krylov_deficient(rows, p):
+                return None               # a wrong non-zero residue, or a zero without the documented cause
+        return "sparse-det-false-zero"
+    # ---- Berlekamp-Massey on [a, 0, 0, ...]
     if op in ("im_det_sparse", "im_det_sparse_par", "im_detp4") and ans == "panic":
-        # Berlekamp-Massey on the sequence [a, 0, 0, ...]: (M^k v)[0] = 0 for all k >= 1 (e.g. empty first row), or zero matrix
-        rows = dec_sparse(case.args[0])
-        if not rows or not any(rows):
+        rows = dec_sparse(a[0])
+        if any(j >= len(rows) or not -(1 << 15) <= e < (1 << 15) for r in rows for j, e in r):
+            return None
+        if not rows or not any(rows) or krylov_tail_zero(rows):
             return "sparse-det-degenerate-sequence-panic"
-        x, y, v = 0, 1, []
-        for _ in range(len(rows)):
-            x, y = y, (x + y) % 65537
-            v.append(y)
-        tail = []
-        for _ in range(2 * len(rows) - 1):
-            v = [sum(e * v[j] for j, e in r) for r in rows]
-            tail.append(v[0])
-        if not any(tail):
-            return "sparse-det-degenerate-sequence-panic"
+        return None
     if op == "im_ker_p256" and ans == "panic":
-        # Berlekamp-Massey on the sequence [a, 0, 0, ...] (e.g. the fixed start vector is itself a kernel vector)
-        rows, p = dec_sparse(case.args[0]), int(case.args[1])
-        x, y, v = 0, 1, []
-        for _ in range(len(rows)):
-            x, y = y, (x + y) % 65537
-            v.append(y)
-        tail = []
-        for _ in range(2 * len(rows) - 1):
-            v = [sum(e * v[j] for j, e in r) % p for r in rows]
-            tail.append(v[0])
-        if not any(tail):
-            return "sparse-det-degenerate-sequence-panic"
+        rows, p = dec_sparse(a[0]), int(a[1])
+        return "sparse-det-degenerate-sequence-panic" if krylov_tail_zero(rows, p) else None
+    # ---- SmithNormalForm::reduce: the product of the pivots after the row phase is a proper multiple of h
+    #      (incomplete Howell form); the Lean model of reduce must refuse at the same assertion
     if op == "snf_reduce" and ans == "panic":
-        return "snf-reduce-refusal"
+        if ask_model(case.line) != "panic":
+            return None
+        d = ask_model(f"snf_reduce_diag {a[0]} {a[1]} {a[2]}").split(" ")
+        if d[0] == "rowphase" and int(d[1]) != int(d[2]) and int(d[1]) % int(d[2]) == 0:
+            return "snf-reduce-refusal"
+        return None
     if op == "im_snf" and ans.startswith("refused-reduce"):
-        return "snf-reduce-refusal"
-    if op in ("im_lattice_index", "im_snf", "im_snf_new") and ans == "panic":
-        return "lattice-index-refusal"
+        h = ans.split(" ")[1]
+        if ask_model(f"snf_pipeline_model {a[0]} {h}") != ans:
+            return None
+        d = ask_model(f"snf_pipeline_diag {a[0]} {h}").split(" ")
+        if d[0] == "rowphase" and int(d[1]) != int(d[2]) and int(d[1]) % int(d[2]) == 0:
+            return "snf-reduce-refusal"
+        return None
+    # ---- dense lattice index: the routine re-computed with the same f64 Gram-Schmidt filter ends in
+    #      panic!("failed to determine lattice index") (candidate rows rejected by LATTICE_MINDIST, gcd never unique)
+    if op == "im_lattice_index" and ans == "panic":
+        rows = dec(a[0])
+        if rows and lattice_index(rows, len(rows[0])) == 0:
+            return None
+        sim = simulate_lattice_index(rows, bits_f64(int(a[1])), bits_f64(int(a[2])))
+        return "lattice-index-refusal" if sim == ("refuse",) else None
+    if op in ("im_snf", "im_snf_new") and ans == "panic":
+        rows = _dense_of_rels(dec_sparse(a[0]))
+        sim = simulate_lattice_index(rows, bits_f64(int(a[1])), bits_f64(int(a[2])))
+        return "lattice-index-refusal" if sim == ("refuse",) else None
+    # ---- sparse lattice index: same selections, exact determinants decide, detz reported false zeros
     if op == "im_sparse_lattice_index" and ans == "panic":
-        return "sparse-lattice-index-refusal"
+        rows_s = dec_sparse(a[1])
+        cause = sparse_trace_cause(int(a[0]), rows_s, bits_f64(int(a[2])), bits_f64(int(a[3])))
+        if cause == "false-zero":
+            return "sparse-lattice-index-refusal"
+        if cause == "selection":
+            return "sparse-lattice-index-selection"
+        return None
     return None
 
 
